@@ -178,10 +178,11 @@ PROPS.update({
              'milestones and the done/active token from the dates; the progress computation of DhtmlxGantt.__data (statements taken from the real AST) yields a value within 0..1 for every scheduled task and never raises. '
              'MermaidNetwork.__src is proved at the level of line counts (abstract text theory: number of line breaks): after the heading line the source has, for every member task, one line per predecessor - or one Start line if it has none - and one style line per '
              'task that carries a bar style (three loops; domain: single-line task names, the property\'s quantifier). MermaidGantt.__mermaid_task is proved to return exactly one line, and MermaidGantt.__src to add, after the heading, exactly one task line per member task '
-             'plus one section line per section when the tasks carry more than one section - the section dictionary (setdefault / append, then items()) as a key list and a map, shown to hold distinct non-empty sections whose lists contain every task exactly once, each under its own section. '
+             'plus one section line per section when the tasks carry more than one section - the section dictionary (setdefault / append, then items()) as a key list and a map, shown to hold distinct non-empty sections whose lists contain every task exactly once, each under its own section. DhtmlxGantt.__data is proved at the level of counts: the "data" list handed to json.dumps has exactly one entry per task, root tree by root tree, and the "links" list carries the ids 1, 2, 3, ... in order (uniquely numbered); '
+             'the entry dictionaries themselves are opaque there (the expressions inside the dictionary literals are not evaluated, their safety is not claimed). '
              'Everything else about the emitted documents - what the lines say, one line / entry per task in the Gantt documents, link numbering, JSON well-formedness, escaping - is decided by the bounded stand-in at the lexical level; what Mermaid, a browser or DHTMLX make of the '
              'text cannot be expressed by a contract on pjplan functions.',
-             ['MermaidGantt.__src / __mermaid_task (content and order of the lines) / __styles', 'MermaidNetwork.__src (content of the lines)', 'DhtmlxGantt.__data (document structure) / __task_classes / __columns / to_html', '_repr_html_'],
+             ['MermaidGantt.__src / __mermaid_task (content and order of the lines) / __styles', 'MermaidNetwork.__src (content of the lines)', 'DhtmlxGantt.__data (content of the entries, number of links) / __task_classes / __columns / to_html', '_repr_html_'],
              ['library contracts (L): json.dumps, html.escape, string.Template, strftime',
               'MermaidNetwork.__src line count: an f-string has the line breaks of its constant parts plus those of the embedded texts, str.replace of pieces without line breaks keeps their number, numbers render without one; assumed: the rendered style dictionary (__dict_to_style) has no line break; the three frame facts of the section-dictionary total (render.TOTAL_AX, inductions over the number of keys) are assumed and checked on all small instances in selftest/validate_axioms.py'],
              ['task names containing an arrow add an edge to the network line: known finding A-29'], design_ref='8/C19, 10'),
